@@ -10,7 +10,7 @@ from hypothesis.stateful import RuleBasedStateMachine, initialize, precondition,
 
 from ..core import rng_from, to_np
 from ..runner import xp_of
-from .base import Violation
+from .base import MachineMixin, Violation
 
 POOL = 5
 CLASSES = ("BaseSamples", "Samples", "SMCSamples")
@@ -227,7 +227,7 @@ class Interp:
 
 
 def make_machine(interp_factory, workdir, col):
-    class C16Machine(RuleBasedStateMachine):
+    class C16Machine(MachineMixin, RuleBasedStateMachine):
         def __init__(self):
             super().__init__()
             self.it = interp_factory(workdir, col)
@@ -236,31 +236,25 @@ def make_machine(interp_factory, workdir, col):
               n=st.integers(2, 9), d=st.integers(1, 3), fields=st.tuples(st.booleans(), st.booleans(), st.booleans()),
               evidence=st.booleans(), seed=st.integers(0, 1000))
         def create(self, cls, xp, dtype, n, d, fields, evidence, seed):
-            self.it.op_create(cls=cls, xp=xp, dtype=dtype, n=n, d=d, fields=list(fields), evidence=evidence, seed=seed)
+            self.do("create", cls=cls, xp=xp, dtype=dtype, n=n, d=d, fields=list(fields), evidence=evidence, seed=seed)
 
         @rule(src=st.integers(0, 20), kind=st.sampled_from(["slice", "step_slice", "mask", "index_array"]), a=st.integers(0, 20), b=st.integers(0, 20), seed=st.integers(0, 1000))
         def select(self, src, kind, a, b, seed):
-            self.it.op_select(src=src, kind=kind, a=a, b=b, seed=seed)
+            self.do("select", src=src, kind=kind, a=a, b=b, seed=seed)
 
         @rule(src=st.integers(0, 20), cuts=st.lists(st.integers(0, 20), min_size=1, max_size=3))
         def concat_partition(self, src, cuts):
-            self.it.op_concat_partition(src=src, cuts=cuts)
+            self.do("concat_partition", src=src, cuts=cuts)
 
         @rule(src=st.integers(0, 20), protocol=st.sampled_from([2, 4, 5]))
         def pickle_hop(self, src, protocol):
-            self.it.op_pickle(src=src, protocol=protocol)
+            self.do("pickle", src=src, protocol=protocol)
 
         @rule(src=st.integers(0, 20), flat=st.booleans())
         def dict_roundtrip(self, src, flat):
-            self.it.op_dict_roundtrip(src=src, flat=flat)
+            self.do("dict_roundtrip", src=src, flat=flat)
 
         def teardown(self):
-            col.last_ops = list(self.it.ops)
-            col.examples += 1
-            col.steps += len(self.it.ops)
-            col.seqs.add(tuple(op for op, _ in self.it.ops))
-            if col.sample is None and len(self.it.ops) >= 4:
-                col.sample = {"ops": self.it.ops[:8]}
-            self.it.close()
+            self.finish_example(col)
 
     return C16Machine
